@@ -22,6 +22,8 @@ TNext ==
      \/ Ev.ev = "challenge" /\ PChallenge(Ev.from, Ev.realm) /\ UNCHANGED <<tid, badl, alls>>
      \/ Ev.ev = "log" /\ PLog(Ev.owners) /\ Mark /\ UNCHANGED tid
         /\ alls' = alls \cup {<<l, x>> : x \in LogBads(Ev.owners)}
+     \/ Ev.ev = "errout" /\ PErr(Ev.owners) /\ Mark /\ UNCHANGED tid
+        /\ alls' = alls \cup {<<l, x>> : x \in ErrBads(Ev.owners)}
      \/ Ev.ev \in {"logdone", "redirect", "location"} /\ PNote /\ UNCHANGED <<tid, badl, alls>>
      \/ Ev.ev = "done" /\ PNote /\ UNCHANGED <<tid, badl, alls>>
         /\ (bad # "" => PrintT(<<"FIRST", tid, badl, bad>>))
